@@ -38,6 +38,9 @@ type c10sFamily struct {
 	main *boltz.BaseStore[boltz.Entity]
 	sub  *boltz.BaseStore[boltz.Entity]
 	leaf *boltz.BaseStore[boltz.Entity]
+	// set indexes of the main store (c10_cursors.go): on the string set xss and on the fk set xks
+	idxXss boltz.SetReadIndex
+	idxXks boltz.SetReadIndex
 }
 
 // c10sBuild defines the three stores below the root bucket `root` through the public API
@@ -71,12 +74,12 @@ func c10sBuild(root string) *c10sFamily {
 	m.AddSymbol("xd", ast.NodeTypeDatetime)
 	m.AddSymbolWithKey("xp", ast.NodeTypeInt64, "grp", "ext", "deep")
 	m.AddFkSymbol("xk", f.sub)
-	m.AddSetSymbol("xss", ast.NodeTypeString)
+	f.idxXss = m.AddSetIndex(m.AddSetSymbol("xss", ast.NodeTypeString))
 	m.AddSetSymbol("xis", ast.NodeTypeInt64)
 	m.AddSetSymbol("xfs", ast.NodeTypeFloat64)
 	m.AddSetSymbol("xbs", ast.NodeTypeBool)
 	m.AddSetSymbol("xds", ast.NodeTypeDatetime)
-	m.AddFkSetSymbol("xks", f.sub)
+	f.idxXks = m.AddSetIndex(m.AddFkSetSymbol("xks", f.sub))
 	m.AddFkSetSymbol("xms", m)
 
 	s := f.sub
@@ -300,6 +303,7 @@ func c10sWriteLinked(root *boltz.TypedBucket) {
 type c10sRoot struct {
 	name string
 	fam  *c10sFamily
+	prov []c10cProv // the cursor providers over the stores of this root (c10_cursors.go)
 }
 
 type c10sEnvT struct {
@@ -320,7 +324,11 @@ var c10sEnv = sync.OnceValue(func() *c10sEnvT {
 	ast.EnableQueryDebug.Store(false)
 	env := &c10sEnvT{db: db, only: map[string]*c10sRoot{}}
 	c10sInited.Store(true)
-	mkRoot := func(name string) *c10sRoot { return &c10sRoot{name: name, fam: c10sBuild("c10-" + name)} }
+	mkRoot := func(name string) *c10sRoot {
+		root := &c10sRoot{name: name, fam: c10sBuild("c10-" + name)}
+		root.prov = c10cMatrix(root.fam)
+		return root
+	}
 	all, orphan, hollow, void := mkRoot("all"), mkRoot("orphan"), mkRoot("hollow"), mkRoot("void")
 	env.roots = []*c10sRoot{all, orphan, hollow, void}
 	for _, id := range c10sMainIds {
@@ -333,6 +341,7 @@ var c10sEnv = sync.OnceValue(func() *c10sEnvT {
 			c10sWriteMain(rb.GetOrCreatePath("mains"), id)
 		}
 		c10sWriteLinked(rb)
+		c10cWriteIndexes(rb, true)
 		// a list of row ids for QueryWithCursorC, with ids of entities that do not exist
 		lst := rb.GetOrCreatePath("lists")
 		lst.SetStringList("rows", append([]string{"a-missing", "zz-dangling"}, c10sMainIds...), nil)
@@ -346,11 +355,13 @@ var c10sEnv = sync.OnceValue(func() *c10sEnvT {
 		rb.GetOrCreatePath("mains")
 		rb.GetOrCreatePath("subs")
 		rb.GetOrCreatePath("leaves")
+		c10cWriteIndexes(rb, false) // the index base buckets exist and hold no key
 		// void: nothing, not even the root bucket
 		for _, id := range c10sMainIds {
 			rb = boltz.GetOrCreatePath(tx, "c10-only-"+id)
 			c10sWriteMain(rb.GetOrCreatePath("mains"), id)
 			c10sWriteLinked(rb)
+			c10cWriteIndexes(rb, true)
 		}
 		return nil
 	})
@@ -377,8 +388,8 @@ func c10sCleanup() {
 
 var c10sApis = []string{"QueryIds", "QueryIdsC", "IterateIds", "IterateValidIds", "QueryWithCursorC"}
 
-// c10sRun runs one API for one filter over one root; site != "" if it panicked
-func c10sRun(env *c10sEnvT, root *c10sRoot, api string, filter string, query ast.Query) (site string) {
+// c10sRun runs one API for one filter over one root; site != "" if it panicked (note: the cursor provider in use)
+func c10sRun(env *c10sEnvT, root *c10sRoot, api string, filter string, query ast.Query) (site string, note string) {
 	_ = env.db.View(func(tx *bbolt.Tx) error {
 		// recover inside the transaction function, so that the read transaction is always released
 		defer func() {
@@ -423,10 +434,21 @@ func c10sRun(env *c10sEnvT, root *c10sRoot, api string, filter string, query ast
 					}, query)
 				}
 			}
+			// three cursor providers of the matrix of c10_cursors.go (set-index iterators, tree sets, unions, ...)
+			for _, pv := range c10cPick(root, filter) {
+				note = ":" + pv.name
+				_, _, _ = st.QueryWithCursorC(tx, pv.p, query)
+				for _, fwd := range []bool{true, false} {
+					if c := pv.p(tx, fwd); c != nil {
+						drain(c)
+					}
+				}
+			}
+			note = ""
 		}
 		return nil
 	})
-	return site
+	return site, note
 }
 
 func c10sVerdict(filter string) (verdict string) {
@@ -467,7 +489,7 @@ func c10sVerdict(filter string) (verdict string) {
 	}
 	for _, root := range env.roots {
 		for _, api := range c10sApis {
-			site := c10sRun(env, root, api, filter, query)
+			site, note := c10sRun(env, root, api, filter, query)
 			if site == "" {
 				continue
 			}
@@ -475,13 +497,13 @@ func c10sVerdict(filter string) (verdict string) {
 			// which single entity of the main store is enough
 			for _, id := range c10sMainIds {
 				if q2, err := ast.Parse(env.only[id].fam.main, filter); err == nil {
-					if s2 := c10sRun(env, env.only[id], api, filter, q2); s2 == site {
+					if s2, _ := c10sRun(env, env.only[id], api, filter, q2); s2 == site {
 						where = "only:" + id
 						break
 					}
 				}
 			}
-			return "V:" + site + "@" + api + "@" + where
+			return "V:" + site + "@" + api + note + "@" + where
 		}
 	}
 	return "ok"
